@@ -262,6 +262,7 @@ pub fn generate(thorough: bool, seed: u64, em: &mut Emitter) {
                 let mut case = super::c02::present_case(&tok, &token, &clear, &redact, Value::Null, 1, json!({"kbpol": Value::Null}));
                 case["nontrivial"] = json!(true);
                 case["tag"] = json!("redact_multibyte_paths");
+                super::present::decorate_session(r, &mut case);
                 em.case("present", case);
             }
         }
